@@ -49,7 +49,13 @@ def run_case(case: dict) -> dict:
     ev = []
     for i, (t, n) in enumerate(lay):
         full = n == 8 * enc.NUM_SIZE[t]
-        var = pm.add_variable(0x2000 + i, 0, None if full and case.get("implicit_len", True) else n)
+        try:
+            var = pm.add_variable(0x2000 + i, 0, None if full and case.get("implicit_len", True) else n)
+        except Exception as exc:  # noqa  a mapping of at most 64 bits must be accepted
+            ev.append({"e": "add", "i": i + 1, "off": -1, "length": -1, "datalen": -1, "repr": repr(exc)[:100]})
+            for k, e in enumerate(ev):
+                e["n"] = k + 1
+            return {"ev": ev, "lay": [list(x) for x in lay]}
         ev.append({"e": "add", "i": i + 1, "off": var.offset, "length": var.length, "datalen": len(pm.data)})
     for op in case["ops"]:
         if op["op"] == "setframe":
